@@ -2,6 +2,9 @@
 From TV Require Import Base.I32 Model.Time.
 Open Scope Z_scope.
 
+Lemma source_shape_is_modelled : source_shape_ok = true.
+Proof. vm_compute. reflexivity. Qed.
+
 (* ------------------------------------------------------------------------------------------ *)
 (* 1. the nested pass is the label arithmetic over the pre-order listing *)
 
